@@ -21,10 +21,14 @@ RULE = ("valid encodings: cycle over all (prefix in {none + 15 PRE bytes}, opcod
         "set the decoder accepts for that opcode, remaining operand bytes random/boundary, followed by NOPs (1/2), another "
         "encoding of the same (prefix, opcode) (1/4) or any valid encoding (1/4); plus encoding grids: every MVL/MVLD "
         "(prefix, opcode, operand shape) with an internal block crossing (FF)->(00), every (prefix, opcode, mode byte) "
-        "with [r3++]/[--r3] and r3 in FFFFD..FFFFF resp. 1..3; state: "
+        "with [r3++]/[--r3] and r3 in FFFFD..FFFFF resp. 1..3, every MVL/MVLD/WAIT (prefix, opcode, operand shape) pair "
+        "(seed-rotated walk) with a large iteration count I in FFh..FFFFh (1/3 boundary counts around 2^8, 2^12..2^15, "
+        "BFFF/C000, FFFE/FFFF; 2/3 log-uniform), 1/4 of the register-pointed blocks ending at the top / starting at the "
+        "bottom of the 1 MiB space; state: "
         "gen_state registers (pointers interior 7/8, boundary 1/8), I in 1..24 for counted forms (thorough: 1/6 of "
         "them 1..300 incl. 255/256/257), BP/PX/PY chosen so that (n),(BP+n),(PX+n),(PY+n),(BP+PX),(BP+PY) are "
-        "pairwise distinct for every internal operand, [(n)] cells hold generated pointers, memory = address hash. "
+        "pairwise distinct for every internal operand, [(n)] cells hold generated pointers, memory = address hash, the "
+        "lifter's scratch registers TEMP0..TEMP13 hold generated junk at instruction entry in 1/2 of the cases. "
         "Non-trivial = the instruction has a memory operand and was judged (reference models it and does not skip); "
         "distinct = (prefix, opcode, operand modes, state hash).")
 
@@ -39,6 +43,8 @@ ASSUMPTIONS = [
     "ADD/SUB register pairs outside the README opcode rows, MV/EX between registers of different size, JP/CMPW/CMPP with a register class the README does not list, IR, ??? : unmodelled, counted",
     "HALT/OFF/RESET/IR have no operands; their effects are C04's subject (skipped here)",
     "I = 0 for counted instructions is outside the quantifier (iteration counts >= 1)",
+    "TEMP0..TEMP13 (lifter scratch registers, part of Registers.BASE, never reset between instructions, saved in snapshots) hold generated values at instruction entry in half of the cases: the statement quantifies over every machine state and the denoted locations are a function of operands + architectural registers only; verdicts that vanish with the TEMPs cleared are tagged",
+    "iteration counts up to FFFFh are inside the quantifier (I is a 16-bit counter; 'the range implied by I'); large-count cases whose block leaves the 1 MiB space / covers the code bytes / rewrites BP,PX,PY while addressing through them are re-drawn (reference silent there, as before)",
 ]
 
 
@@ -54,6 +60,9 @@ def run(ctx: Ctx) -> Report:
     fs = 8
     tasks += [(PROPERTY, i, fs, ctx.seed, ctx.pick(6, 24), 24, SALT, "blockwrap") for i in range(fs)]
     tasks += [(PROPERTY, i, fs, ctx.seed, ctx.pick(1, 4), 24, SALT, "ptr-edge") for i in range(fs)]
+    # large iteration counts (c03_gen.big_count): few, slow cases -> many small tasks, scheduled first
+    bs = ctx.pick(16, 64)
+    tasks = [(PROPERTY, i, bs, ctx.seed, ctx.pick(5, 6), 24, SALT, "bigcount") for i in range(bs)] + tasks
     rep = ctx.merge_reports(ctx.pmap(K.explore_shard, tasks))
     rep.rule = RULE
     rep.assumptions = list(ASSUMPTIONS)
